@@ -17,7 +17,8 @@ RULE = ("histories of 1..10 (thorough ..30) operations on one frame: constructor
         "non-trivial = history with >=1 rejected and >=2 accepted steps or a deletion followed by reuse of the name")
 
 UNIVERSE = ["x", "y", "z", "a b", "items", "filter", "nrow", "_q", "1a", "w"]
-TRANSFORMS = ["filter", "filter_out", "head", "tail", "sort", "unique", "rbind", "cbind", "select", "unselect", "rename", "modify", "update", "drop_na", "slice", "copy", "deepcopy", "sample"]
+TRANSFORMS = ["filter", "filter_out", "head", "tail", "sort", "unique", "rbind", "cbind", "select", "unselect", "rename", "modify", "update", "drop_na", "slice", "copy", "deepcopy", "sample",
+              "modify_grouped:scalar", "modify_grouped:one", "modify_grouped:group", "modify_grouped:two", "modify_grouped:nrow", "modify_grouped:plus1"]
 
 
 def gen_shape(rng, nrow):
@@ -110,7 +111,36 @@ def value_of(shape, name=None, df=None):
                 col = di.DataFrameColumn(np.arange(n))
                 return col[:, None] if name == "x" else col.reshape(1, n)
         return np.zeros((2, 3))
-    return list(range(shape))
+    vals = list(range(shape))
+    # the same values in the array types a caller may hold them in: a typed length-one column (taken from a one-row frame,
+    # or a ready DataFrameColumn / Vector) is broadcast like a one-element list is
+    import zlib
+    import dataiter as di
+    carrier = zlib.crc32(f"{name}:{shape}".encode()) % 6
+    if carrier == 1:
+        return np.array(vals, dtype=np.int64)
+    if carrier == 2:
+        return di.Vector(vals, int)
+    if carrier == 3:
+        return di.DataFrameColumn(vals, int)
+    if carrier == 4:
+        return tuple(vals)
+    if carrier == 5 and shape >= 1:
+        return di.DataFrame(c=vals).c
+    return vals
+
+
+GROUPED_BAD = [False]
+
+
+def grouped_result(kind, x, total):
+    """what the function handed to a group-wise modify returns for the group x (total = rows of the whole frame)"""
+    n = {"one": 1, "group": x.nrow, "two": 2, "nrow": total, "plus1": x.nrow + 1}.get(kind)
+    if kind == "scalar":
+        return 5
+    if n not in (1, x.nrow):
+        GROUPED_BAD[0] = True          # neither a scalar, nor one element, nor one per row of the group: must be refused
+    return np.arange(n)
 
 
 def new_names(perm, old, fresh_pool):
@@ -158,6 +188,13 @@ def transform(df, m):
         return df.rename(renamed=df.colnames[0]) if df.ncol else df
     if m == "modify":
         return df.modify(z=lambda x: np.arange(x.nrow))
+    if m.startswith("modify_grouped:"):
+        if not df.ncol:
+            return df
+        total = df.nrow
+        out = df.group_by(df.colnames[0]).modify(zg=lambda x: grouped_result(m.split(":")[1], x, total))
+        df._group_colnames = ()
+        return out
     if m == "update":
         return df.update(di.DataFrame(y=np.arange(n) * 2)) if n else df.update(df)
     if m == "drop_na":
@@ -231,7 +268,13 @@ def impl(case):
                 rec["names"] = names
                 df.colnames = names
             elif k == "transform":
-                out = transform(df, st["m"])
+                GROUPED_BAD[0] = False
+                try:
+                    out = transform(df, st["m"])
+                finally:
+                    if st["m"].startswith("modify_grouped:"):
+                        df._group_colnames = ()
+                rec["grouped_bad"] = GROUPED_BAD[0]
                 if not isinstance(out, di.DataFrame):
                     raise TypeError("transform did not return a DataFrame")
                 df = out
@@ -261,8 +304,8 @@ def model_requests(case, obs):
             ops.append({"k": "colnames", "names": rec.get("names", [])})
         elif k == "transform":
             ops.append({"k": "rebuild", "pairs": rec["pairs"] if "pairs" in rec else [["__reject__", "nd"]]})
-    return [("fs_run", {"ident": [u for u in UNIVERSE + ["p", "q", "r", "s", "t", "u", "v2", "renamed", "B", "v"] if u.isidentifier()],
-                        "classAttr": [u for u in UNIVERSE + ["p", "q", "r", "s", "t", "u", "v2", "renamed", "B", "v"] if u in cls],
+    return [("fs_run", {"ident": [u for u in UNIVERSE + ["p", "q", "r", "s", "t", "u", "v2", "renamed", "B", "v", "zg"] if u.isidentifier()],
+                        "classAttr": [u for u in UNIVERSE + ["p", "q", "r", "s", "t", "u", "v2", "renamed", "B", "v", "zg"] if u in cls],
                         "universe": UNIVERSE, "init": case["init"], "ops": ops})]
 
 
@@ -318,6 +361,8 @@ def judge(ctx, case, obs, mouts):
         o = rec["obs"]
         check_state(ctx, sub, o, f"after step {idx} ({st['k']})")
         names = [c[0] for c in o["cols"]]
+        if rec["ok"] and rec.get("grouped_bad"):
+            ctx.violation("oracle", "modify_grouped:stores-mismatch", "a group-wise modify stored a result whose length is neither 1 nor the size of its group", sub, rec)
         if rec["ok"]:
             accepted += 1
         else:
